@@ -194,14 +194,15 @@ func (e *Exec) spendsFrozenAbove(a, b int) (int, int) {
 }
 
 // walkMayFail: a walk from a to b may legitimately fail when the scenario contains deliberately invalid blocks
-// on the way or the irreversible window forbids the undo.
+// on the way (marked by the generator, or refused by the uninterrupted run itself: a peer block without the pending
+// transaction its member depends on) or the irreversible window forbids the undo.
 func (e *Exec) walkMayFail(a, b int) bool {
 	if e.w.Window > 0 {
 		return true
 	}
 	for _, x := range e.w.chain(b) {
-		if e.badBlocks[x] {
-			return true
+		if e.badBlocks[x] || e.failedDest[x] {
+			return true // the uninterrupted run could not apply this block either
 		}
 	}
 	return false
